@@ -51,8 +51,26 @@ def extra(tier, rng, build_cache, known):
             settled += 1
     if not conclusive:
         viol.append({"case": cases[0], "obs": res[cases[0]["id"]], "note": "forced stop schedule never reached"})
+    # through the event loop: tasks accepted, EventLoops::stop called at once: success only after every
+    # accepted task has run; nothing is accepted afterwards
+    lc = [{"id": 200 + i, "clock": "0", "pools": [], "origin": "extra", "kind": "loop_stop",
+           "ops": [{"op": "loop_stop", "tasks": rng.choice([1, 3, 8, 40])}]} for i in range(4 if tier == "quick" else 16)]
+    lres = core.run_harness(build_cache[key], AREA, lc, isolate=True, timeout_ms=40000, jobs=2)
+    lok = 0
+    for c in lc:
+        r = lres[c["id"]]
+        v = r[0].get("loop_stop") if r and isinstance(r[0], dict) else None
+        if not v:
+            viol.append({"case": c, "obs": r, "note": "event-loop stop scenario did not finish"})
+        elif v["accepted_after_stop"] or (v["stop_ok"] and v["ran_at_stop_return"] != v["accepted"]):
+            viol.append({"case": c, "obs": r, "tags": ["loop_stop_leaves_tasks"],
+                         "note": "EventLoops::stop reported success with %d of %d accepted tasks run (accepted after stop: %s)"
+                                 % (v["ran_at_stop_return"], v["accepted"], v["accepted_after_stop"])})
+        else:
+            lok += 1
     return {"info": {"forced_stop_runs": len(cases), "forced_stop_conclusive": conclusive,
-                     "forced_stop_waiter_settled": settled}, "violations": viol}
+                     "forced_stop_waiter_settled": settled, "loop_stop_runs": len(lc), "loop_stop_ok": lok},
+            "violations": viol}
 
 
 PINNED = ['C12_single_pool', 'C12_shape', 'C12_state_monotone']
